@@ -425,7 +425,8 @@ def execute(scn, guide=None, keep=False):
                          "tool_off": g.tool_off, "coolant_on": lambda: g.coolant_on("flood"),
                          "coolant_off": g.coolant_off, "bed": lambda: g.set_bed_temperature(v_ % 120),
                          "query": lambda: g.query("position"),
-                         "circle": lambda: (g.move(x=0, y=0), g.trace.circle(center=(5 + v_ % 7, 0))),
+                         "circle": lambda: (g.set_resolution(2.0 + v_ % 3), g.move(x=0, y=0),
+                                            g.trace.circle(center=(5 + v_ % 7, 0))),
                          "polyline": lambda: g.trace.polyline([(v_ % 9, 1), (2, v_ % 5), (3, 3)])}[op[1]]()
                     except SimAbort:
                         raise
@@ -498,7 +499,7 @@ def execute(scn, guide=None, keep=False):
             except Exception as e:
                 V("unexpected-exception", op=op[:2], exc="%s: %s" % (type(e).__name__, str(e)[:80]))
                 break
-        if scn.get("poison_check"):
+        if scn.get("poison_check") and not any(w.registered for w in pool):
             # a writer fails once; the statements after it must still reach every writer
             class Flaky(Rec):
                 def write(self_, statement):
